@@ -135,6 +135,11 @@ CORPUS = [
     dict(prog=[["F", "Forward"], ["a", "Word", "a"], ["g", "Group", "a"], ["_", "<<=", "F", "g"], ["b", "Literal", "b"],
                ["c", "Literal", "c"], ["o1", "And", ["F", "b", "c"]], ["o2", "And", ["F", "b", "b", "c"]], ["o3", "And", ["F", "b"]],
                ["root", "Or", ["o1", "o2", "o3"]], ["rr", "OneOrMore", "root"]], root="rr", inputs=["a b a b b", "a b", "a b c a b"]),
+    # the aliased action failure fixed by af5d31e: the memo must keep a copy of an exception raised in the actions pass
+    dict(prog=[["F", "Forward"], ["w", "Word", "ab"], ["wsub", "copy", "w"], ["_", "action", "wsub", ["failP"]], ["wg", "Group", "w"],
+               ["x", "Literal", "x"], ["wx", "+", "wg", "x"], ["b", "MatchFirst", ["wsub", "wx"]], ["_", "<<=", "F", "b"],
+               ["g", "Suppress", "F"], ["_", "set_name", "g", "item"], ["first", "Opt", "g"], ["root", "+", "first", "F"]],
+         root="root", inputs=["a q", "a x", "a"], witness=True),
     # the retained seed fixed by 9a7c23f
     dict(prog=[["F", "Forward"], ["w", "Word", "a"], ["x", "Literal", "x"], ["wx", "+", "w", "x"], ["_", "<<=", "F", "wx"],
                ["o", "Opt", "F"], ["root", "+", "o", "F"]], root="root", inputs=["a q", "a x a x", "a"]),
@@ -170,6 +175,11 @@ def template_jobs(ctx, n):
         if r.random() < 0.4:
             prog += [["x", "Literal", "x"], ["wx", "+", body, "x"]]
             body = "wx"
+        if r.random() < 0.25:
+            # the body's action raises an application-defined ParseException subclass: a revisit must raise the same class
+            prog += [["wsub", "copy", "w"], ["_", "action", "wsub", ["failSub"]], ["bsub", "MatchFirst", ["wsub", body]] if r.random() < 0.5
+                     else ["bsub", "copy", "wsub"]]
+            body = "bsub"
         prog.append(["_", "<<=", "F", body])
         f = "F"
         if r.random() < 0.3:
@@ -248,6 +258,20 @@ def run(ctx):
                          modes=[("lr", None), ("lr", 1), ("lr", 2)]))
     corr_parse.run_jobs(ctx, "model(parseLR)-vs-real:lr", jobs)
     run_oracle(ctx, "oracle:lr-vs-none:aliasing-templates", template_jobs(ctx, ctx.budget(600, 6000)))
+    # entry points are independent of earlier calls with the same objects (each resets the memo): parse A, then scan B
+    from . import c08
+    pj = []
+    for i in range(ctx.budget(300, 3000)):
+        rng = random.Random(f"C03-{ctx.seed}-prior-{i}")
+        prog, root, inputs = gen.gen_case(rng, gen.Cfg(**FWD_CFG), 5)
+        pj.append(dict(prog=prog, root=root, inputs=inputs))
+    res = common.pmap(c08.prior_job, pj)
+    badp = [m for r_ in res for m in r_[1] if m["mode"][0] == "lr"]
+    ctx.count_cases("oracle:independent-of-earlier-calls", sum(r_[0] for r_ in res), outcomes={"mismatch": len(badp)})
+    for m in badp[:2]:
+        ctx.fail_input("left-recursion mode: an entry point depends on what was parsed before",
+                       {"prior": True, **{k: m[k] for k in ("prog", "root", "input", "mode", "others")}}, m["expected"], m["actual"],
+                       theorem="C03 statement (memo reset at every entry point)", how="harness.props.c08.prior_job")
     mult = 5 if (ctx.broken and not ctx.fail_inputs) else 1
     oj = [dict(prog=j["prog"], root=j["root"], inputs=j["inputs"]) for j in jobs]
     run_oracle(ctx, "oracle:lr-vs-none", oj)
@@ -260,6 +284,10 @@ def run(ctx):
 
 
 def replay(data):
+    if data.get("replay_kind") == "failing-input" and data["case"].get("prior"):
+        from . import c08
+        c = data["case"]
+        return any(m["mode"][0] == "lr" for m in c08.prior_job(dict(prog=c["prog"], root=c["root"], inputs=[c["input"]] + [o for o in c["others"] if o != c["input"]]))[1])
     if data.get("replay_kind") == "failing-input":
         c = data["case"]
         return bool(oracle_job(dict(prog=c["prog"], root=c["root"], inputs=[c["input"]], witness=True))[1])
